@@ -702,7 +702,7 @@ def rule_a1(ctx: Ctx) -> None:
     cands = [st for st in f.body if isinstance(st, ast.Assign) and isinstance(st.value, ast.Constant) and isinstance(st.value.value, int) and len(st.targets) == 1 and isinstance(st.targets[0], ast.Name)]
     calls = [n for n in walk_no_nested(f.node) if isinstance(n, ast.Call) and call_name(n) and call_name(n)[-1] in ValidatedReturn.CHECKS]
     if not calls:
-        ctx.violation("C17-A1", f, f.node, "the automatic driver never validates a description against the property")
+        ctx.violation("C17-A1", f, f.node, "the automatic driver never validates a description against the property", robust=True)
         return
     bounds = {unparse(c.args[1]) for c in calls if len(c.args) >= 3}
     if len(bounds) != 1:
@@ -712,7 +712,7 @@ def rule_a1(ctx: Ctx) -> None:
     if len(init) != 1:
         raise AnalysisError(f"{f.where}: initial value of the sanity bound `{bound}` not found")
     if init[0].value.value < 8:
-        ctx.violation("C17-A1", f, init[0], f"the sanity bound starts at {init[0].value.value}; descriptions must be validated on every permutation up to length 8")
+        ctx.violation("C17-A1", f, init[0], f"the sanity bound starts at {init[0].value.value}; descriptions must be validated on every permutation up to length 8", robust=True)
         return
     for node in walk_no_nested(f.node):
         if isinstance(node, (ast.Assign, ast.AugAssign)) and node is not init[0]:
@@ -724,7 +724,7 @@ def rule_a1(ctx: Ctx) -> None:
                     if isinstance(par, ast.If) and node in par.body and isinstance(node, ast.Assign) and unparse(par.test) in (f"{bound} < {unparse(node.value)}", f"{unparse(node.value)} > {bound}"):
                         ok = True
                 if not ok:
-                    ctx.violation("C17-A1", f, node, f"the sanity bound `{bound}` is reassigned in a way that can lower it below 8")
+                    ctx.violation("C17-A1", f, node, f"the sanity bound `{bound}` is reassigned in a way that can lower it below 8", robust=True)
                     return
     ctx.ok("C17-A1", f.where, f"sanity bound `{bound}` starts at {init[0].value.value} and is only ever raised", init[0], f)
     # the tables: good permutations feed bisc(), the bad ones are the other table
@@ -751,10 +751,10 @@ def rule_a1(ctx: Ctx) -> None:
             missing.append("patterns_suffice_for_bad")
         if missing:
             others = sorted({f"{k}:{v}" for (k, v, _t) in s.facts})
-            ctx.violation("C17-A1", f, r, f"`return {x}`: on a path reaching it, `{x}` itself was not validated by {' / '.join(missing)} up to `{bound}` after its last assignment (validated on that path: {others or 'nothing'}); the returned description need not match the property up to length 8")
+            ctx.violation("C17-A1", f, r, f"`return {x}`: on a path reaching it, `{x}` itself was not validated by {' / '.join(missing)} up to `{bound}` after its last assignment (validated on that path: {others or 'nothing'}); the returned description need not match the property up to length 8", robust=True)
             continue
         if goods != [good_tbl] or bads == [good_tbl]:
-            ctx.violation("C17-A1", f, r, f"`{x}` is validated against the wrong table (good: {goods}, bad: {bads}; the good permutations are `{good_tbl}`)")
+            ctx.violation("C17-A1", f, r, f"`{x}` is validated against the wrong table (good: {goods}, bad: {bads}; the good permutations are `{good_tbl}`)", robust=True)
             continue
         ctx.ok("C17-A1", f.where, f"`return {x}` is reached only after patterns_suffice_for_bad({x}, {bound}, {bads[0]}) and patterns_suffice_for_good({x}, {bound}, {goods[0]}) both succeeded on that very value", r, f)
 
@@ -917,7 +917,7 @@ def rule_u2(ctx: Ctx) -> None:
             if reset:
                 ctx.ok("C17-U2", fi.where, f"flag `{x}` (set when `{unparse(st.test)[:60]}`) is re-initialised for every `{v}` before it is set", st, fi)
             else:
-                ctx.violation("C17-U2", fi, st, f"flag `{x}` describes the current `{v}` (set when `{unparse(st.test)[:60]}`) but is not re-initialised inside `for {v} in {unparse(loop.iter)[:30]}`: after the first `{v}` that sets it, every later one is treated the same way (stale value carried between iterations)")
+                ctx.violation("C17-U2", fi, st, f"flag `{x}` describes the current `{v}` (set when `{unparse(st.test)[:60]}`) but is not re-initialised inside `for {v} in {unparse(loop.iter)[:30]}`: after the first `{v}` that sets it, every later one is treated the same way (stale value carried between iterations)", robust=True)
     if n < 2:
         raise AnalysisError(f"only {n} per-element flag(s) found in the BiSC helpers (2 confirmed by hand: L_is_a_key, perm_is_a_key)")
 
@@ -1069,7 +1069,7 @@ def rule_a3(ctx: Ctx) -> None:
             p = pl.target.id
             found += 1
             if unparse(pl.iter) != f"Perm.of_length({i})":
-                ctx.violation("C17-A3", f, pl, f"the tables of length {i} are filled from `{unparse(pl.iter)}`")
+                ctx.violation("C17-A3", f, pl, f"the tables of length {i} are filled from `{unparse(pl.iter)}`", robust=True)
                 continue
             if not (len(pl.body) == 1 and isinstance(pl.body[0], ast.If)):
                 raise AnalysisError(f"{f.where}: body of the loop over Perm.of_length({i}) not recognised")
@@ -1092,7 +1092,7 @@ def rule_a3(ctx: Ctx) -> None:
             if a_then == [(want_then, i, p)] and a_else == [(want_else, i, p)]:
                 ctx.ok("C17-A3", f.where, f"length {i}: a permutation goes to `{good}` iff the property holds, to `{bad}` otherwise", iff, f)
             elif len(a_then) <= 1 and len(a_else) <= 1 and len(iff.body) <= 1 and len(iff.orelse) <= 1:
-                ctx.violation("C17-A3", f, iff, f"permutations of length {i} are routed as then -> {a_then}, else -> {a_else}; the property holders must go to `{good}[{i}]` and all others to `{bad}[{i}]`")
+                ctx.violation("C17-A3", f, iff, f"permutations of length {i} are routed as then -> {a_then}, else -> {a_else}; the property holders must go to `{good}[{i}]` and all others to `{bad}[{i}]`", robust=True)
             else:
                 raise AnalysisError(f"{f.where}: routing of the permutations of length {i} not recognised")
             # the range of lengths: the first construction must cover 0..bound, an extension (old bound, new bound]
@@ -1101,7 +1101,7 @@ def rule_a3(ctx: Ctx) -> None:
                 if len(it.args) == 1:
                     d = lin_diff(it.args[0], {bound: 1, "": 1})
                     if d is not None and d < 0:
-                        ctx.violation("C17-A3", f, lp, f"the tables are filled for `{unparse(it)}` only; every length 0..{bound} is needed by the sanity checks")
+                        ctx.violation("C17-A3", f, lp, f"the tables are filled for `{unparse(it)}` only; every length 0..{bound} is needed by the sanity checks", robust=True)
                     elif d is None:
                         raise AnalysisError(f"{f.where}: range `{unparse(it)}` not comparable with the sanity bound")
                 elif len(it.args) == 2:
@@ -1110,7 +1110,7 @@ def rule_a3(ctx: Ctx) -> None:
                     old = olds[0].targets[0].id if olds else None
                     d0 = lin_diff(it.args[0], {old: 1, "": 1}) if old else None
                     if d1 is not None and d1 < 0 or (d0 is not None and d0 > 0):
-                        ctx.violation("C17-A3", f, lp, f"the tables are extended over `{unparse(it)}`; every new length {old} + 1 .. {bound} is needed")
+                        ctx.violation("C17-A3", f, lp, f"the tables are extended over `{unparse(it)}`; every new length {old} + 1 .. {bound} is needed", robust=True)
                     elif d1 is None or d0 is None:
                         raise AnalysisError(f"{f.where}: range `{unparse(it)}` not comparable with the old and new sanity bound")
         # (C) complement comprehension
@@ -1124,11 +1124,11 @@ def rule_a3(ctx: Ctx) -> None:
                 if not ok_shape:
                     raise AnalysisError(f"{f.where}: complement `{unparse(st)[:70]}` not recognised")
                 if unparse(g.iter) != f"Perm.of_length({i})":
-                    ctx.violation("C17-A3", f, st, f"`{bad}[{i}]` is taken from `{unparse(g.iter)}`, not from Perm.of_length({i})")
+                    ctx.violation("C17-A3", f, st, f"`{bad}[{i}]` is taken from `{unparse(g.iter)}`, not from Perm.of_length({i})", robust=True)
                 elif [unparse(c) for c in g.ifs] == [f"{p} not in {good}[{i}]"]:
                     ctx.ok("C17-A3", f.where, f"`{bad}[{i}]` = the permutations of length {i} that are not in `{good}[{i}]`", st, f)
                 elif [unparse(c) for c in g.ifs] in ([f"{p} in {good}[{i}]"], []):
-                    ctx.violation("C17-A3", f, st, f"`{bad}[{i}]` is not the complement of `{good}[{i}]` in Perm.of_length({i}) (filter: {[unparse(c) for c in g.ifs]})")
+                    ctx.violation("C17-A3", f, st, f"`{bad}[{i}]` is not the complement of `{good}[{i}]` in Perm.of_length({i}) (filter: {[unparse(c) for c in g.ifs]})", robust=True)
                 else:
                     raise AnalysisError(f"{f.where}: complement filter `{[unparse(c) for c in g.ifs]}` not recognised")
     # the tuple input: tables taken as given, in this order
@@ -1141,7 +1141,7 @@ def rule_a3(ctx: Ctx) -> None:
             if st.value.slice.value == want:
                 ctx.ok("C17-A3", f.where, f"tuple input: `{st.targets[0].id}` = component {want}", st, f)
             else:
-                ctx.violation("C17-A3", f, st, f"tuple input: `{st.targets[0].id}` is taken from component {st.value.slice.value}; (good, bad) is the documented order")
+                ctx.violation("C17-A3", f, st, f"tuple input: `{st.targets[0].id}` is taken from component {st.value.slice.value}; (good, bad) is the documented order", robust=True)
     if found < 5:
         raise AnalysisError(f"only {found} table constructions recognised in auto_bisc (5 confirmed by hand)")
 
